@@ -120,10 +120,11 @@ def run_xforms(rep, tier, seed, prop, corpus_file, recipes, gen_programs, n_inpu
                         rep.distinct.add((label, name, key))
                         if want.startswith('timeout') or got.startswith('timeout'):
                             rep.count('timeout'); continue
-                        if want.startswith('ok') and got != want:
+                        if want.startswith('ok') and got != want and not (name.endswith('!strict') and got == 'err AssertionError'):
                             d = {'program': label, 'strategy': name, 'args': repr(args), 'ctx': cs, 'original_result': want,
                                  'transformed_result': got, 'original': src or describe(fn), 'transformed': describe(xf), 'finding': None}
-                            if classify: d['finding'] = classify(d)
+                            if classify:
+                                d['_fn'] = fn; d['finding'] = classify(d); del d['_fn']
                             rep.violation(f'{name}: original returns {want[:80]} but the transformed program gives {got[:80]}', d)
                         rep.count('orig:' + ('ok' if want.startswith('ok') else want.split()[1] if ' ' in want else want))
                         if prog is not None and not got.startswith('unsupported'):
